@@ -48,6 +48,11 @@ FIXED_JSGF = [
     "public <s> = <x>* meters; <x> = go | forward | ten;",
     "public <s> = a | the | to | and;",
     "public <s> = hello [you] | what;",
+    # words with alternate pronunciations after longer words that begin with them (and / are / around ... a, then ... the,
+    # tom ... to, seventeen ... seven): the alternates' arcs belong beside their own base word only
+    "public <s> = (and | are | around) (go | forward) [a] ten meters;",
+    "public <s> = then go forward (tom | ten) meters [the | to];",
+    "public <s> = (around | and) [a] | then [the] go | tom to go;",
 ]
 
 
@@ -122,7 +127,15 @@ def rand_fsg_text(rng, name="g"):
         if w is None and f == t:
             continue
         arcs.append((f, t, rng.choice([1.0, 0.5, 0.25, 0.1]), w))
-    out = ["FSG_BEGIN %s" % name, "NUM_STATES %d" % n, "START_STATE 0", "FINAL_STATE %d" % (n - 1)]
+    # (the start state need not be state 0, nor the final state the last one)
+    if rng.random() < 0.35:
+        perm = list(range(n))
+        rng.shuffle(perm)
+        arcs = [(perm[f], perm[t], p, w) for f, t, p, w in arcs]
+        st, fi = perm[0], perm[n - 1]
+    else:
+        st, fi = 0, n - 1
+    out = ["FSG_BEGIN %s" % name, "NUM_STATES %d" % n, "START_STATE %d" % st, "FINAL_STATE %d" % fi]
     for f, t, p, w in arcs:
         out.append("TRANSITION %d %d %g%s" % (f, t, p, " " + w if w else ""))
     out.append("FSG_END")
@@ -169,7 +182,12 @@ def pick_grammar(rng, ctx, idx, valid_only=False):
     """returns list of script lines that set a grammar"""
     r = rng.random()
     data = os.path.join(sut.REPO, "tests", "data")
-    if r < 0.05:
+    if r < 0.03:
+        # a start rule chosen by configuration (toprule): public or not, it is the rule whose language counts
+        g = ("#JSGF V1.0;\ngrammar g;\npublic <move> = go forward ten meters | stop;\n<back> = go backward (one | two | ten) meters;\n"
+             "<short> = (go | turn) (left | right);\n")
+        return ["toprule " + hx(rng.choice(["g.back", "g.short", "g.move"])), "jsgf " + hx(g), "toprule -"], "jsgf-toprule"
+    if r < 0.07:
         if rng.random() < 0.7:
             txt = rng.choice(FIXED_FSG_VARIANTS)
             return variant_prelude() + ["fsgtext " + hx(txt) + " " + hx(fsg_annotation(txt))], "fsg-variants"
